@@ -137,7 +137,7 @@ CLAIMS['C13']['text'] = ('The generated model takes the width N as an argument, 
 CLAIMS['C14']['text'] = ('Theorems (native_decide, complete source spaces) on the width-parametric model, PxE1 and PxE2: to_p32e2 and to_f64 exact for every N in 2..=14 and all N-bit patterns; to_p8e0 and to_p16e1 (both spellings) for every N in 2..=16; '
     'from_p8e0 (all 256 sources) and from_p16e1 (all 65536 sources) for every N in 2..=32: the source value rounded to an N-bit posit, left-aligned, zero/NaR preserved. '
     'PARTIAL: float and integer sources/targets and N > 16 narrowing for all 31 widths by correspondence + oracle with target-boundary sources; Q32E2 -> PxE2<N> (From<&Q32E2>, From<Q32E2>, Quire::to_posit) after quire histories with PxE2 operands '
-    'against the exact-sum oracle (hand model pinned by source hash); generic-to-generic (M,N) pairs are NOT covered. Open findings by call site: from-integer conversions of PxE1, PxE2::from_i64 / from_i32.')
+    'against the exact-sum oracle (hand model pinned by source hash); generic-to-generic (PxE2<N>::from_pxe1<M> / from_pxe2<M>, PxE1<N>::from_pxe2<M>, their to_* and From spellings): theorems px2_from_px1 / px1_from_px2 / px2_from_px2 (every source width 2..=13, all patterns, into EVERY target width 2..=32; native_decide) and symbolic forwarding theorems for the spellings; wider sources by correspondence for all 31 target widths x 17 source widths with target-boundary sources (one defect found and repaired, known_findings.json). Open findings by call site: from-integer conversions of PxE1, PxE2::from_i64 / from_i32.')
 CLAIMS['C15']['text'] += (' ADDED: theorem C15.pi_split_close (the regenerated constants PI_A + PI_B + PI_C are within 2e-20 of Real.pi; kernel evaluation + Mathlib pi bounds); the streams contain the 3000 worst-case '
     'argument-reduction inputs (all ~250000 multiples of pi/2 scanned) and a sign-logic / special-case stream for powf outside the box [0.5,5)^2 (gross correctness only there). Open finding POWF-6ULP (5 pairs in 13.5 million at 6 ulp).')
 CLAIMS['C17']['text'] = ('398 symbolic forwarding theorems (Props/C17Fwd.lean, no enumeration, axioms propext/Quot.sound): every operator trait, op-assign form, From/Into impl, EVERY method of the num_traits Float/Signed/FloatConst/Bounded/Zero/One/ToPrimitive/FromPrimitive impls (except the two todo!() bodies Float::abs_sub and integer_decode) and every Quire trait method '
